@@ -13,7 +13,9 @@ NUM_FORMS = [("3", 3, 1), ("3.0", 3, 1), ("0", 0, 1), ("-2.5", -5, 2), ("0.25", 
              ("0.0625", 1, 16), ("12.75", 51, 4),
              # more than six significant digits
              ("1234567", 1234567, 1), ("12.345678", 6172839, 500000), ("2500000.75", 10000003, 4), ("98765.4321", 987654321, 10000),
-             ("-100000.5", -200001, 2)]
+             ("-100000.5", -200001, 2),
+             # below 1e-4 (printed with an exponent by repr)
+             ("0.0000125", 1, 80000), ("0.0000134", 67, 5000000)]
 
 
 N_SHORT = 15     # the first forms have at most 4 decimals: goal constants are printed with NUMERIC_PRECISION decimals
